@@ -117,7 +117,7 @@ def run_trajectory(spec, monitors, probes=("days",), partition=None, controller=
 
 
 REACTIVE_TRIGGERS = ("season_end", "season_end_ponded", "season_start", "pond_nearly_empty", "early_senescence", "canopy_below_initial_size",
-                     "top_soil_saturated", "root_zone_waterlogged")
+                     "top_soil_saturated", "root_zone_waterlogged", "water_table_drops", "water_table_rises")
 REACTIVE_ACTIONS = ("storm", "wet_spell", "dry", "et0_spike", "et0_floor")
 
 
@@ -172,6 +172,11 @@ def make_reactive_hook(reactive, faults):
                 cur = bool(cond.th[0] >= prof.th_s[0] - 1e-9)
             elif when == "root_zone_waterlogged":
                 cur = grow_today and int(cond.aer_days) > 0
+            elif when in ("water_table_drops", "water_table_rises"):
+                # the configured series is known to the world in advance: a change of more than a metre from yesterday to today
+                z = m._param_struct.z_gw
+                d = float(z[t]) - float(z[t - 1]) if (0 < t < len(z) and m._param_struct.water_table == 1) else 0.0
+                cur = (d > 1.0) if when == "water_table_drops" else (d < -1.0)
             else:
                 raise ValueError(when)
             edge = cur and not r["_prev"]
